@@ -185,7 +185,7 @@ var glueSuffixes = []string{"s", "ing", "ed", "'s"}
 // characters that look like markup; {source form, visible word}.
 var escapedLiterals = [][2]string{{"caf&amp;eacute;", "caf&eacute;"}, {"&lt;Integer&gt;", "<Integer>"}, {"&amp;lt;b&amp;gt;", "&lt;b&gt;"}, {"a&lt;b", "a<b"}, {"&amp;amp;", "&amp;"}}
 
-var nonASCIIFillers = []string{"città", "Århus", "Šiauliai", "naïve", "Рх", "straße", "déjà", "œuvre", "Ελλάδα", "señor", "Ünal", "†", `|\/|`, `|\/|4573R`}
+var nonASCIIFillers = []string{"città", "Århus", "Šiauliai", "naïve", "Рх", "straße", "déjà", "œuvre", "Ελλάδα", "señor", "Ünal", "†", `|\/|`, `|\/|4573R`, "re\u0301sume\u0301", "soft\u00adhyphen", "\u212bngstr\u00f6m"}
 
 func (g *ArtGen) toks(n int) string {
 	k := g.textKind()
@@ -251,8 +251,22 @@ func (g *ArtGen) noise() string {
 		// a page element that dresses up as the distiller's own embed placeholder
 		return fmt.Sprintf(` id="zi%d" class="embed-placeholder" data-type="youtube" data-id="forged%d" style="color:#%03d" onclick="zo%d()"`, n, n, n%1000, n)
 	}
-	return fmt.Sprintf(` id="zi%d" class="zc%d" style="color:#%03d" onclick="zo%d()" onload="zl%d()" data-x="zd%d" zunk="zu%d" data-verif-mark="zm%d"`, n, n, n%1000, n, n, n, n, n) + dup
+	// every event handler content attribute HTML knows, in rotation
+	h := eventHandlers[n%len(eventHandlers)]
+	return fmt.Sprintf(` id="zi%d" class="zc%d" style="color:#%03d" onclick="zo%d()" onload="zl%d()" %s="zh%d()" data-x="zd%d" zunk="zu%d" data-verif-mark="zm%d"`, n, n, n%1000, n, n, h, n, n, n, n) + dup
 }
+
+var eventHandlers = strings.Fields(`onabort onafterprint onanimationend onanimationiteration onanimationstart onauxclick onbeforecopy onbeforecut onbeforeinput
+	onbeforematch onbeforepaste onbeforeprint onbeforetoggle onbeforeunload onblur oncancel oncanplay oncanplaythrough onchange onclose oncommand
+	oncontentvisibilityautostatechange oncontextlost oncontextmenu oncontextrestored oncopy oncuechange oncut ondblclick ondrag ondragend ondragenter
+	ondragleave ondragover ondragstart ondrop ondurationchange onemptied onended onerror onfocus onfocusin onfocusout onformdata onfullscreenchange
+	onfullscreenerror ongotpointercapture onhashchange oninput oninvalid onkeydown onkeypress onkeyup onlanguagechange onloadeddata onloadedmetadata
+	onloadstart onlostpointercapture onmessage onmessageerror onmousedown onmouseenter onmouseleave onmousemove onmouseout onmouseover onmouseup
+	onmousewheel onoffline ononline onpagehide onpageshow onpaste onpause onplay onplaying onpointercancel onpointerdown onpointerenter onpointerleave
+	onpointermove onpointerout onpointerover onpointerrawupdate onpointerup onpopstate onprogress onratechange onreset onresize onscroll onscrollend
+	onscrollsnapchange onscrollsnapchanging onsearch onsecuritypolicyviolation onseeked onseeking onselect onselectionchange onselectstart onslotchange
+	onstalled onstorage onsubmit onsuspend ontimeupdate ontoggle ontouchcancel ontouchend ontouchmove ontouchstart ontransitioncancel ontransitionend
+	ontransitionrun ontransitionstart onunhandledrejection onunload onvolumechange onwaiting onwebkitanimationend onwebkitfullscreenchange onwheel onzzfuture`)
 
 // noiseClass is noise for an element that needs a functional class value.
 func (g *ArtGen) noiseClass(class string) string {
@@ -267,7 +281,7 @@ func (g *ArtGen) noiseClass(class string) string {
 // ---------------------------------------------------------------------------
 // URL references (C06)
 
-var refForms = []string{"path", "dot", "dotdot", "root", "scheme", "query", "abs", "frag", "data", "js", "bad", "embedded", "proxy", "comma", "pad-path", "pad-root", "js-case", "data-case", "enc-slash", "enc-query", "nfd"}
+var refForms = []string{"path", "dot", "dotdot", "root", "scheme", "query", "abs", "frag", "data", "js", "bad", "embedded", "proxy", "comma", "pad-path", "pad-root", "js-case", "data-case", "enc-slash", "enc-query", "nfd", "utf8-path"}
 
 func splitPage(page string) (origin, dir, path string) {
 	// page is http://host/a/b/c.html[?q][#f]
@@ -331,6 +345,9 @@ func (g *ArtGen) ref(carrier, attr, where, ext string, forms []string) string {
 	case "nfd": // an absolute URL with a decomposed accent and a soft hyphen: passed through unchanged, byte for byte
 		raw = "http://other.example/re\u0301sume\u0301/soft\u00adhyphen/" + id + ext
 		exp = raw
+	case "utf8-path": // raw non-ASCII letters whose UTF-8 bytes end in 0xA0 / 0x85 (a no-break space / next line when read as bytes)
+		raw = "/img/voil\u00e0-\u00c5-\u0420\u0445-" + id + ext
+		exp = origin + "/img/voil%C3%A0-%C3%85-%D0%A0%D1%85-" + id + ext
 	case "js-case": // the scheme of an URL is case-insensitive; the reference passes through unchanged
 		raw = "JavaScript:show('#" + id + " tab')"
 		exp = raw
@@ -369,8 +386,8 @@ func (g *ArtGen) ref(carrier, attr, where, ext string, forms []string) string {
 }
 
 var linkForms = []string{"path", "dot", "dotdot", "root", "scheme", "query", "abs", "frag", "data", "bad", "js", "path", "root", "embedded", "proxy", "comma", "pad-path", "pad-root", "js-case", "data-case", "enc-slash", "enc-query", "nfd"}
-var mediaForms = []string{"path", "dot", "dotdot", "root", "scheme", "abs", "path", "root", "query", "embedded", "proxy", "comma", "pad-path", "pad-root", "enc-slash", "enc-query", "nfd"}
-var srcsetForms = []string{"path", "dot", "dotdot", "root", "scheme", "abs", "comma", "proxy"}
+var mediaForms = []string{"path", "dot", "dotdot", "root", "scheme", "abs", "path", "root", "query", "embedded", "proxy", "comma", "pad-path", "pad-root", "enc-slash", "enc-query", "nfd", "utf8-path"}
+var srcsetForms = []string{"path", "dot", "dotdot", "root", "scheme", "abs", "comma", "proxy", "utf8-path"}
 
 func (g *ArtGen) where() string {
 	if g.curFig >= 0 {
@@ -615,6 +632,10 @@ func (g *ArtGen) picture(where string) (string, string) {
 	}
 	if g.P.Hidden && g.r.Chance(1, 3) {
 		sb.WriteString(`<!-- ` + g.toksK(1, KHidden, "comment") + ` -->`)
+		if g.r.Chance(1, 2) {
+			// more than one comment, next to each other and apart
+			sb.WriteString(`<!-- ` + g.toksK(1, KHidden, "comment") + ` --><source srcset="/img/alt` + fmt.Sprint(len(g.L.Toks)) + `.avif 1x"><!-- ` + g.toksK(1, KHidden, "comment") + ` -->`)
+		}
 	}
 	sb.WriteString(`<img src="` + src + `"` + g.noise() + `>`)
 	if g.P.Hidden && g.r.Chance(1, 3) {
@@ -758,7 +779,7 @@ func (g *ArtGen) figure() {
 // ---------------------------------------------------------------------------
 // hidden and skipped carriers (C04)
 
-var hiddenBlockKinds = []string{"script", "style", "comment", "hidden-attr", "display-none", "vis-hidden", "vis-collapse", "aria-hidden", "display-none-nested", "figcaption-hidden", "script-styled", "style-styled", "figure-hidden-caption", "display-none-font", "figure-hidden-picture"}
+var hiddenBlockKinds = []string{"script", "style", "comment", "hidden-attr", "display-none", "vis-hidden", "vis-collapse", "aria-hidden", "display-none-nested", "figcaption-hidden", "script-styled", "style-styled", "figure-hidden-caption", "display-none-font", "figure-hidden-picture", "figcaption-hidden-plain"}
 var skippedKinds = []string{"form", "input", "button", "select", "textarea", "noscript", "svg", "object", "embed", "applet", "iframe"}
 
 func (g *ArtGen) hiddenCarrier(kind string) {
@@ -813,6 +834,10 @@ func (g *ArtGen) hiddenCarrier(kind string) {
 		// a hidden placeholder picture (with stray text) in front of the real image of a figure
 		hid := []string{` style="display:none"`, ` hidden`, ` aria-hidden="true"`}[g.r.Intn(3)]
 		g.w(`<figure><picture` + hid + `>` + t(2) + `<img src="/img/spinner` + fmt.Sprint(len(g.L.Toks)) + `.gif" width="600" height="400"></picture><img src="/img/real` + fmt.Sprint(len(g.L.Toks)) + `.png" width="600" height="400"></figure>`)
+	case "figcaption-hidden-plain":
+		// the caption element itself is hidden and has no link (its text is taken as a whole)
+		hid := []string{` hidden`, ` style="display:none"`, ` style="visibility:hidden"`, ` aria-hidden="true"`}[g.r.Intn(4)]
+		g.w(`<figure><img src="/img/hp` + fmt.Sprint(len(g.L.Toks)) + `.png" width="600" height="400"><figcaption` + hid + `>` + t(3) + `</figcaption></figure>`)
 	case "figcaption-hidden":
 		g.w(`<figcaption hidden>` + t(2) + ` <a href="/hid/cap.html">` + t(1) + `</a></figcaption>`)
 	case "display-none-font":
@@ -1108,10 +1133,12 @@ func (g *ArtGen) block() {
 			g.L.Kinds["styled-wrapper"]++
 			n := 15 + g.r.Intn(40)
 			switch g.r.Intn(11) {
-			case 8: // inline elements displayed as blocks, written without white space between them
-				g.w(`<div><span style="display:block">` + g.toks(n) + `</span><span style="display:block">` + g.toks(8) + `</span><b style="display: flex">` + g.toks(5) + `</b></div>` + "\n")
+			case 8: // inline elements displayed as blocks (of any kind), written without white space between them
+				d := []string{"block", "flex", "grid", "table", "list-item", "flow-root"}[g.r.Intn(6)]
+				g.w(`<div><span style="display:` + d + `">` + g.toks(n) + `</span><span style="display:` + d + `">` + g.toks(8) + `</span><b style="display: flex">` + g.toks(5) + `</b></div>` + "\n")
 			case 9:
-				g.w(`<ul><li><span style="display:block">` + g.toks(n) + `</span><span style="display:block">` + g.toks(8) + `</span></li><li>` + g.toks(12) + `</li></ul>` + "\n")
+				d := []string{"block", "flex", "grid", "table", "list-item"}[g.r.Intn(5)]
+				g.w(`<ul><li><span style="display:` + d + `">` + g.toks(n) + `</span><span style="display:` + d + `">` + g.toks(8) + `</span></li><li>` + g.toks(12) + `</li></ul>` + "\n")
 			case 10:
 				g.w(`<p>` + g.toks(n) + `<em style="display:block">` + g.toks(6) + `</em>` + g.toks(7) + `</p>` + "\n")
 			case 0:
